@@ -629,7 +629,7 @@ theorem div_relabel (f f' g g' : Fld) (old new : List String) (σ : Nat → Nat)
   rw [s3, s4, s5]
 
 /-- **† The vector Laplacian forgets the operand's labels and mapping** (candidate finding
-D21).  Whatever labels and whatever component-to-axis mapping the operand carries, the
+D55).  Whatever labels and whatever component-to-axis mapping the operand carries, the
 result is labelled positionally (`x,y,z` / `v0,…`) and, when `nvdim = ndim`, mapped
 positionally (`label k ↦ axis k`), while by `laplace_eq_vector` its components stay in the
 operand's STORAGE order.  Hence for an operand whose mapping is a non-identity permutation
@@ -1105,13 +1105,13 @@ matrix on the two in-plane components found through `_r_dim_mapping`); it is tie
 by the correspondence run like the operators.  The theorems are `_partial`: one quarter turn
 (other `k` iterate it), fully valid fields, and the hypothesis `periodic f a = periodic f b`
 — without it the claim is FALSE of the code (`Mesh.rotate90` keeps `bc`, candidate finding
-D22); the vector Laplacian is excluded for non-positional mappings by candidate finding D21. -/
+D56); the vector Laplacian is excluded for non-positional mappings by candidate finding D55. -/
 
 /-- **The scalar Laplacian commutes with a quarter turn** (`_partial`: one quarter turn `k = 1`
 about the region centre — other `k` are iterates; fully valid fields; the two axes of the
 plane both open or both periodic, because `Mesh.rotate90` keeps `bc` in place, candidate
-finding D22; vector fields with a non-positional mapping are excluded by candidate finding
-D21).  `laplace(rotate90(f)) = rotate90(laplace(f))` at every cell. -/
+finding D56; vector fields with a non-positional mapping are excluded by candidate finding
+D55).  `laplace(rotate90(f)) = rotate90(laplace(f))` at every cell. -/
 theorem laplace_rot90_partial (f R L LR RL : Fld) (a b : Nat) (wf : MeshWf f) (hn : f.nvdim = 1)
     (hf : FullyValid f) (ha : a < f.mesh.ndim) (hb : b < f.mesh.ndim) (hab : a ≠ b)
     (hper : periodic f a = periodic f b)
@@ -1615,7 +1615,7 @@ example : ∀ p ∈ exV.vmap, ∀ q ∈ exV.vmap, p.2 = q.2 → p = q := by deci
 /-- relabelling `exV` is accepted, so `setVdims_keeps_map` / `div_relabel` are not vacuous -/
 example : ∃ g, setVdims exV (some ["u", "v", "w"]) = .ok g := ⟨_, rfl⟩
 
-/-- † witness of candidate finding D21: the Laplacian of `exV` exists, pairs axis `a` with its
+/-- † witness of candidate finding D55: the Laplacian of `exV` exists, pairs axis `a` with its
 component 0 (positional mapping) although that component is the Laplacian of `p`, which `exV`
 pairs with axis `c` -/
 example : ∃ g, laplace exV = .ok g ∧ g.vmap = [("x", "a"), ("y", "b"), ("z", "c")] ∧
